@@ -320,6 +320,12 @@ class Interp:
                 base[self.ev(tgt.slice)] = val
             except Exception as ex:
                 raise Unsupported(f"subscript store {ast.unparse(tgt)}") from ex
+        elif isinstance(tgt, (ast.Tuple, ast.List)) and not any(isinstance(x, ast.Starred) for x in tgt.elts):
+            vals = list(val) if isinstance(val, (tuple, list)) else None
+            if vals is None or len(vals) != len(tgt.elts):
+                raise Unsupported(f"destructuring {ast.unparse(tgt)}")
+            for t, v in zip(tgt.elts, vals):
+                self.assign(t, v)
         else:
             raise Unsupported("assignment target")
 
